@@ -107,7 +107,8 @@ class Bad:
 
 @stackscope.unwrap_stackitem.register(Bad)
 def _unwrap_bad(item):
-    raise ValueError("cannot look inside\nthis item")
+    # (a message of several lines, one of which looks like the header of a traceback: a wrapped remote traceback)
+    raise ValueError("cannot look inside\nTraceback (most recent call last):\n  this item")
 
 
 class Iter:
@@ -307,6 +308,13 @@ def trio_scenarios(emit):
     trio.run(main)
 
 
+def error_text_complete(err, lines):
+    """every line of the message of the recorded error (of each of them, for a group) is in the rendering"""
+    shown = [ln.strip() for ln in lines]
+    errs = list(getattr(err, "exceptions", None) or [err])
+    return all(any(ln.endswith(ml.strip()) for ln in shown) for e in errs for ml in str(e).splitlines() if ml.strip())
+
+
 def str_under_stdouts(st, uni):
     """str(x) is the concatenation of format(), whatever sys.stdout happens to be"""
     import io
@@ -344,7 +352,8 @@ def render(label, st, out):
                     expect.append("  Target of innermost frame: %r\n" % (st.leaf,))
                 flat_ok = flat[:len(expect)] == expect and (
                     (st.error is None and len(flat) == len(expect)) or
-                    (st.error is not None and flat[len(expect):len(expect) + 1] == ["  Error while extracting stack:\n"]))
+                    (st.error is not None and flat[len(expect):len(expect) + 1] == ["  Error while extracting stack:\n"]
+                     and error_text_complete(st.error, flat[len(expect) + 1:])))
             r = {"ctx": sc, "hidden": sh, "uni": uni, "asc": asc, "flat_ok": flat_ok,
                  "summary": [[e.filename, e.lineno, e.name] for e in summ],
                  "str_is_join": str_under_stdouts(st, uni) if (sc and not sh) else True}
